@@ -102,6 +102,9 @@ StepMov(i, s) ==
      [] i.mn = "xchg" -> LET a == Rd(d, w, s)  b == Rd(i.ops[2], w, s) IN
                          WrOp(WrOp(p, i.ops[2], w, a, s), d, w, b, s)      \* xchg r, r with the same register: unchanged either way
      [] i.mn = "lea" -> WrOp(p, d, w, Norm(EA(i.ops[2], s), w), s)
+     [] i.mn = "bswap" -> LET a == Rd(d, 32, s) IN WrOp(p, d, 32, <<a[4], a[3], a[2], a[1]>>, s)
+     [] i.mn = "xlat" ->          \* al := [ebx + zero-extended al]
+          WrReg(p, "r8", 0, Load(s, Add(s.reg[EBX], ZExt(<<s.reg[EAX][1]>>, 32), 32), 8))
 
 \* ---- stack ---------------------------------------------------------------------------
 StepStack(i, s) ==
@@ -119,6 +122,13 @@ StepStack(i, s) ==
                     !.wr = TLCEval([j \in 1..(8 * n) |->
                               LET k == (j - 1) \div n IN
                               <<Sub(esp, Const(n * (k + 1) - ((j - 1) % n)), 32), s.reg[k + 1][((j - 1) % n) + 1]>>])]
+     [] i.mn = "leave" ->         \* esp := ebp; ebp := pop
+          LET ebp == s.reg[EBP] IN
+          [p EXCEPT !.reg = RegWrite(RegWrite(s.reg, "r32", 5, Load(s, ebp, 32)), "r32", 4, Add(ebp, Const(4), 32))]
+     [] i.mn = "enter" ->         \* nesting level 0: push ebp; ebp := esp; esp := esp - size
+          LET e2 == Sub(esp, Const(4), 32) IN
+          [p EXCEPT !.reg = RegWrite(RegWrite(s.reg, "r32", 5, e2), "r32", 4, Sub(e2, Norm(i.ops[1].v, 32), 32)),
+                    !.wr = Bytes(e2, s.reg[EBP], 4)]
      [] i.mn = "popad" ->         \* edi esi ebp (skipped) ebx edx ecx eax
           LET c == AccC(w)
               val(k) == Load(s, Add(esp, Const(n * k), 32), w)
@@ -349,8 +359,8 @@ StepFlow(i, s) ==
                     !.reg = RegWrite(p.reg, "r32", 4, Add(esp, Add(Const(4), Norm(i.ops[1].v, 32), 32), 32))]
 
 \* ---- dispatch ---------------------------------------------------------------------------------------------
-MovMn == {"mov", "movzx", "movsx", "xchg", "lea"}
-StackMn == {"push", "pop", "pushad", "popad"}
+MovMn == {"mov", "movzx", "movsx", "xchg", "lea", "bswap", "xlat"}
+StackMn == {"push", "pop", "pushad", "popad", "leave", "enter"}
 AluMn == {"add", "adc", "sub", "sbb", "cmp", "inc", "dec", "neg", "not", "and", "or", "xor", "test", "xadd", "cmpxchg"}
 ShiftMn == {"shl", "shr", "sar", "rol", "ror", "rcl", "rcr", "shld", "shrd"}
 MulMn == {"mul", "imul"}
